@@ -1,6 +1,6 @@
 """Scenario generators for the concurrent harness.  Every random choice derives from one
 random.Random seeded by VERIF_SEED; a scenario is a block of text understood by harness/scen/scen.c."""
-import random
+import random, re
 
 DL_CHOICES = ["inf", "p1000", "p50000", "p2000000", "m5", "z"]
 
@@ -352,6 +352,46 @@ def fam_starve(rng):
     return lines
 
 
+def fam_starve_mix(rng):
+    """C01 / C02 / C14 in the LONG-WAIT regime: a victim writer (fiber 0) that the adversarial scheduler lets lose
+    every race, so that after 30 wake-ups it publishes MU_LONG_WAIT — while OTHER kinds of threads are around:
+    blocking writers and readers that have themselves been woken (they are exempt from the bit), and timed
+    nsync_mu_wait waiters whose deadline expires while the bit is set and the mutex is held (they re-acquire through
+    mu_try_acquire_after_timeout_or_cancel)."""
+    lines = ["sem %s" % rng.choice(["counting", "binary"]), "objs mu=1 var=1", "var x0 0 mu0", "cond c0 eq x0 7"]
+    lines.append("fiber yield ; lock mu0 ; unlock mu0")
+    for _ in range(rng.choice([2, 3])):
+        acq, rel = rng.choice([("lock", "unlock"), ("lock", "unlock"), ("rlock", "runlock")])
+        n = rng.choice([40, 55])
+        lines.append("fiber " + " ; ".join(["%s mu0 ; yield ; %s mu0" % (acq, rel)] * n))
+    for _ in range(rng.choice([1, 2])):
+        rd = rng.random() < 0.4
+        lines.append("fiber " + " ; ".join(["yield"] * rng.randrange(0, 3) + ["rlock mu0" if rd else "lock mu0", "muwait mu0 c0 %s" % rng.choice(["p300", "p1000", "p3000", "p8000"]), "runlock mu0" if rd else "unlock mu0"]))
+    lines.append("#strategy4")
+    return lines
+
+
+def fam_longwait_timeout(rng):
+    """C01 / C05 in the long-wait regime, built deterministically: a timed nsync_mu_wait waiter T (condition never
+    true) sleeps; a hog H unlocks and immediately re-locks 30 times, each time after the victim V (fiber 0, a plain
+    nsync_mu_lock caller that the adversarial scheduler lets lose every race) has gone back to sleep — so V escalates
+    and publishes MU_LONG_WAIT while H holds the mutex; then the clock is advanced past T's deadline and T runs its
+    timeout re-acquisition (mu_try_acquire_after_timeout_or_cancel) with the bit set and the mutex held."""
+    rdT = rng.random() < 0.3
+    rounds = 30            # V's 30th lost race: its next enqueue publishes MU_LONG_WAIT while H (who re-locked just before) holds the mutex
+    lines = ["sem %s" % rng.choice(["counting", "binary"]), "objs mu=1 var=1", "var x0 0 mu0", "cond c0 eq x0 7"]
+    lines.append("fiber after_blocked 2 ; yield ; lock mu0 ; unlock mu0")                                  # 0: V
+    hog = ["after_blocked 2", "lock mu0", "after_blocked 0"] + ["unlock mu0", "lock mu0", "after_blocked 0"] * rounds
+    hog += ["advance %d" % rng.choice([4000, 9000])] + ["yield"] * rng.choice([40, 80, 120]) + ["unlock mu0"]
+    lines.append("fiber " + " ; ".join(hog))                                                                 # 1: H
+    lines.append("fiber %s mu0 ; muwait mu0 c0 p3000 ; %s mu0" % (("rlock", "runlock") if rdT else ("lock", "unlock")))   # 2: T
+    if rng.random() < 0.4:
+        lines.append("fiber after_blocked 2 ; yield ; yield ; rlock mu0 ; runlock mu0")
+    lines.append("#strategy4all")
+    lines.append("#tick0")
+    return lines
+
+
 def fam_refcount(rng):
     """C13 (mutex half): the reference-count pattern.  Every fiber owns one reference to an object that
     contains the mutex; it may use the mutex a few times, then does lock; last = (--refs == 0); unlock;
@@ -408,6 +448,52 @@ def fam_once(rng):
             ops.append("once %s %d" % (o, v))
             if rng.random() < 0.2: ops.append("yield")
         lines.append("fiber " + " ; ".join(ops))
+    return lines
+
+
+def fam_once_nested(rng):
+    """C07: the once function of one object itself calls nsync_run_once* on ANOTHER once object — possibly one that
+    shares the internal lock slot (o0 / o64 / o128 collide) — while other threads call both.  No call may block for
+    ever and each function runs once.  (The Once acceptor has no nested frames: replayed through MuX only.)"""
+    a, b = rng.choice([(0, 64), (64, 128), (0, 1), (1, 64), (64, 0 + 128)])
+    lines = ["sem %s" % rng.choice(["counting", "binary"]), "objs mu=1 once=130", "oncecb %d" % rng.choice([4, 8, 20]),
+             "oncenest o%d o%d %d" % (a, b, rng.choice([1, 1, 3]))]
+    for f in range(rng.choice([2, 3, 4])):
+        ops = []
+        for _ in range(rng.choice([1, 2])):
+            o = rng.choice([a, a, b])
+            v = rng.choice([0, 1, 2, 3]) if o == 0 else rng.choice([1, 3])
+            ops.append("once o%d %d" % (o, v))
+            if rng.random() < 0.3: ops.append("yield")
+        lines.append("fiber " + " ; ".join(ops))
+    return lines
+
+
+def fam_muc_cv(rng):
+    """C04 / C06 / C02: condition variable waiters and nsync_mu_wait waiters on the SAME mutex.  A conditional waiter
+    whose condition stays false is scanned by a writer's unlock (which may publish MU_ALL_FALSE); then a cv waiter
+    is signalled while the mutex is READ-held, so wake_waiters hands it to the mutex queue; the last reader's
+    release must wake it.  The conditional waiter never returns (expect stuck-ok); what must not happen is a cv
+    waiter left asleep on a free mutex after it was signalled (oracle cv-woken-asleep at quiescence)."""
+    lines = ["sem %s" % rng.choice(["counting", "binary"]), "objs mu=1 cv=1 var=2", "var x0 0 mu0", "var x1 0 mu0",
+             "cond c0 eq x0 7", "cond c1 ge x0 7"]
+    nf = 0
+    for _ in range(rng.choice([1, 1, 2])):          # conditional waiters, never satisfied
+        rd = rng.random() < 0.3
+        lines.append("fiber " + " ; ".join((["after_blocked %d" % (nf - 1)] if nf else []) + ["rlock mu0" if rd else "lock mu0", "muwait mu0 %s inf" % rng.choice(["c0", "c1"]), "runlock mu0" if rd else "unlock mu0"])); nf += 1
+    ncv = rng.choice([1, 1, 2])
+    for _ in range(ncv):                            # cv waiters for x1 == 1
+        rd = rng.random() < 0.3
+        lines.append("fiber " + " ; ".join(["after_blocked %d" % (nf - 1), "rlock mu0" if rd else "lock mu0", "await cv0 mu0 x1 1 inf", "runlock mu0" if rd else "unlock mu0"])); nf += 1
+    # a writer makes the cv predicate true (its unlock scans the false conditions), then a READER signals
+    lines.append("fiber after_blocked %d ; lock mu0 ; wr x1 1 ; unlock mu0" % (nf - 1)); w = nf; nf += 1
+    sig = "broadcast cv0" if ncv > 1 else rng.choice(["signal cv0", "broadcast cv0"])
+    if rng.random() < 0.5:
+        lines.append("fiber after_blocked %d ; yield ; rlock mu0 ; %s ; runlock mu0" % (w, sig))
+    else:
+        lines.append("fiber after_blocked %d ; yield ; rlock mu0 ; yield ; yield ; yield ; yield ; runlock mu0" % w)
+        lines.append("fiber after_blocked %d ; yield ; yield ; %s" % (w, sig))
+    lines.append("expect stuck-ok")
     return lines
 
 
@@ -482,7 +568,7 @@ except Exception:
     _gm = None
 
 FAMILIES = {"alloc_fail": fam_alloc_fail, "note": _gn.fam_note, "note_f4": _gn.fam_note_f4, "note_f4b": _gn.fam_note_f4b, "note_f7": _gn.fam_note_f7, "refcount": fam_refcount, "starve": fam_starve, "cv_rsignal": fam_cv_rsignal, "ctr": fam_ctr, "once": fam_once, "futex": fam_futex,"core": fam_core, "cv": fam_cv, "cv_raw": fam_cv_raw, "muwait": fam_muwait, "debug": fam_debug,
-            "waitn_cv": fam_waitn_cv, "waitn_rep": fam_waitn_rep, "ctr_big": fam_ctr_big, "cancel_children": fam_cancel_children, "cv_rwr": fam_cv_rwr, "muc_eqmix": fam_muc_eqmix, "timed_contended": fam_timed_contended, "waitn_mon": fam_waitn_mon, "cancel_only": fam_cancel_only, "mixed": fam_mixed}
+            "waitn_cv": fam_waitn_cv, "waitn_rep": fam_waitn_rep, "longwait_timeout": fam_longwait_timeout, "starve_mix": fam_starve_mix, "muc_cv": fam_muc_cv, "once_nested": fam_once_nested, "ctr_big": fam_ctr_big, "cancel_children": fam_cancel_children, "cv_rwr": fam_cv_rwr, "muc_eqmix": fam_muc_eqmix, "timed_contended": fam_timed_contended, "waitn_mon": fam_waitn_mon, "cancel_only": fam_cancel_only, "mixed": fam_mixed}
 
 
 if _gw is not None:
@@ -505,6 +591,12 @@ def make_batch(path, seed, plan):
                     # plain WRITES of the library to shared records are scheduling points (per-mille probability): another
                     # thread may run between two adjacent statements of a section the library believes protected
                     ex = [e + " plainsched=%d" % (60 if i % 2 else 200) for i, e in enumerate(ex)]
+                if "#tick0" in lines:          # the scenario moves the clock itself (op `advance`): no random ticks
+                    lines = [l for l in lines if l != "#tick0"]
+                    ex = [re.sub(r"tick=\d+", "tick=0", e) for e in ex]
+                if "#strategy4all" in lines:   # every schedule of this scenario is adversarial (the scenario is built for it)
+                    lines = [l for l in lines if l != "#strategy4all"]
+                    ex = [e.replace("strategy=%s" % e.split("strategy=")[1].split()[0], "strategy=4") for e in ex]
                 if "#strategy4" in lines:      # half of the schedules of this scenario are adversarial
                     lines = [l for l in lines if l != "#strategy4"]
                     ex = [e.replace("strategy=%s" % e.split("strategy=")[1].split()[0], "strategy=%d" % (4 if i % 4 == 0 else 5)) if i % 2 == 0 else e for i, e in enumerate(ex)]   # 5 = 4 + early wake-ups
